@@ -15,3 +15,8 @@ for grp, ents in rf_gatesets.ENTRIES.items():
 json.dump(out, open(rf_gatesets.TABLE_FILE, 'w'), indent=1)
 for k, v in out.items():
     print(k.split('::')[-1], len(v))
+eo = {}
+for e in rf_gatesets.ENTRIES['bbs']:
+    b = resolve_fn(prog, e)
+    eo[b.path] = sorted(rf_gatesets.error_origins(ctx, 'prod-all', b.path))
+json.dump(eo, open(rf_gatesets.ERR_TABLE_FILE, 'w'), indent=1)
